@@ -368,6 +368,101 @@ def run(ctx):
             if err > 4e-5 + 4e-6 * np.abs(new).max():
                 ctx.broke("correspondence:wrap_mols", "case %d frame %d (%s cell): non-anchor molecules differ from the model by %.4g nm" % (k, f, desc["cell"], err))
     ctx.counters["model comparisons skipped near a rounding tie"] = skipped
+    # ---- solvated systems (a solute, waters, ions: enough molecules for the anchors to be guessed), one after the other with the same
+    # numbers of atoms and bonds but the molecules stored in another order, each topology released before the next is built: whatever
+    # image_molecules works out about one topology must not be applied to another
+    import gc
+
+    def solvated(seed_):
+        r2 = np.random.RandomState(seed_)
+        kind_, box_ = cells(rng)
+        box_ = box_.astype(np.float64) * max(1.0, 1.6 / width(box_.astype(np.float64)))
+        mols_ = [("SOL", 12)] + [("HOH", 3)] * 14 + [("NA", 1)] * 2
+        order_ = list(r2.permutation(len(mols_)))
+        top_ = md.Topology(); ch_ = top_.add_chain()
+        pos_, bonds_ = [], []
+        for mi in order_:
+            nm, sz = mols_[mi]
+            res_ = top_.add_residue(nm, ch_)
+            root_ = r2.rand(3) @ box_
+            loc = [root_]
+            first = len(pos_)
+            for k_ in range(1, sz):
+                d_ = r2.normal(size=3); d_ = d_ / np.linalg.norm(d_) * r2.uniform(0.09, 0.15)
+                par = r2.randint(0, k_) if nm == "SOL" else 0
+                loc.append(loc[par] + d_); bonds_.append((first + par, first + k_))
+            for k_ in range(sz):
+                top_.add_atom("%s%d" % (nm[0], k_), md.element.carbon, res_)
+            pos_ += loc
+        atoms_ = list(top_.atoms)
+        for a_, b_ in bonds_:
+            top_.add_bond(atoms_[a_], atoms_[b_])
+        whole_ = np.array(pos_)
+        shift_ = np.array([[r2.randint(-2, 3) for _ in range(3)] for _ in range(len(pos_))], dtype=np.float64) @ box_
+        t_ = md.Trajectory((whole_ + shift_)[None].astype(np.float32), top_)
+        t_.unitcell_vectors = box_[None].astype(np.float32)
+        return kind_, box_, t_, bonds_
+
+    for k in range(ctx.n(10, 60)):
+        kind_, box_, t_, bonds_ = solvated(1000 + k)
+        ctx.case(None, ("solvated", k)); ctx.count("solvated systems imaged with guessed anchors")
+        try:
+            with warnings.catch_warnings():
+                warnings.simplefilter("ignore")
+                res_ = t_.image_molecules(inplace=False)
+        except ValueError as e:
+            if "anchor" in str(e):
+                ctx.count("guessed anchors: heuristic found none (documented ValueError)")
+                continue
+            viol("image|solvated|raises", "image_molecules() on a solvated system raised %s" % e, dict(case=k))
+            continue
+        new_ = res_.xyz[0].astype(np.float64); old_ = t_.xyz[0].astype(np.float64)
+        Bf = t_.unitcell_vectors[0].astype(np.float64)
+        disp_ = new_ - old_
+        fr_ = lattice_frac(Bf, disp_ - disp_[0])
+        if np.abs(fr_ - np.rint(fr_)).max() > 2e-3:
+            viol("image|not-translation-plus-lattice", "image_molecules() with guessed anchors on a solvated system (%s cell): atoms moved by vectors that differ by a non-lattice vector" % kind_, dict(case=k, seed=ctx.seed))
+        for (i_, j_) in bonds_:
+            got_ = float(np.linalg.norm(new_[i_] - new_[j_]))
+            want_ = float(np.sqrt(brute_min(Bf, old_[j_] - old_[i_])))
+            if abs(got_ - want_) > 2e-4:
+                viol("image|bond-not-minimum-image", "after image_molecules() with guessed anchors on a solvated system (the %dth of a series with the same composition, molecules stored in another order) the bonded atoms %d-%d are %.4f nm apart, minimum-image separation %.4f" % (k + 1, i_, j_, got_, want_), dict(case=k, seed=ctx.seed))
+                break
+        # the same Topology object edited in place, atom and bond counts unchanged: an atom of the solute is deleted and put back, bonded
+        # to a water instead of to its old neighbour; the molecules are now other sets of atoms
+        top_ = t_.topology
+        sol_ = [a.index for a in top_.atoms if a.residue.name == "SOL"]
+        wat_ = [a.index for a in top_.atoms if a.residue.name == "HOH"]
+        leaf_ = [i for i in sol_ if sum(1 for b in bonds_ if i in b) == 1]
+        if leaf_ and wat_:
+            i_ = leaf_[-1]
+            res_i = top_.atom(i_).residue
+            place_ = [a.index for a in res_i.atoms].index(i_)
+            top_.delete_atom_by_index(i_)
+            top_.insert_atom("CX", md.element.carbon, res_i, index=i_, rindex=place_)
+            j_ = wat_[0]
+            top_.add_bond(top_.atom(i_), top_.atom(j_))
+            bonds2_ = [b for b in bonds_ if i_ not in b] + [(i_, j_)]
+            xyz2_ = t_.xyz.copy()
+            xyz2_[0, i_] = xyz2_[0, j_] + np.array([0.11, 0.0, 0.0], dtype=np.float32) + (np.array([1, -1, 2]) @ box_).astype(np.float32)
+            t2_ = md.Trajectory(xyz2_, top_); t2_.unitcell_vectors = t_.unitcell_vectors.copy()
+            ctx.case(None, ("solvated-edited", k)); ctx.count("solvated systems re-imaged after an in-place edit of the topology")
+            try:
+                with warnings.catch_warnings():
+                    warnings.simplefilter("ignore")
+                    r2_ = t2_.image_molecules(inplace=False)
+                n2_ = r2_.xyz[0].astype(np.float64); o2_ = t2_.xyz[0].astype(np.float64)
+                for (a_, b_) in bonds2_:
+                    got_ = float(np.linalg.norm(n2_[a_] - n2_[b_])); want_ = float(np.sqrt(brute_min(Bf, o2_[b_] - o2_[a_])))
+                    if abs(got_ - want_) > 2e-4:
+                        viol("image|bond-not-minimum-image|edited-topology", "image_molecules() with guessed anchors after the same Topology object was edited in place (an atom re-bonded, atom and bond counts unchanged): bonded atoms %d-%d end %.4f nm apart, minimum-image separation %.4f" % (a_, b_, got_, want_), dict(case=k, seed=ctx.seed))
+                        break
+            except ValueError as e:
+                if "anchor" not in str(e):
+                    viol("image|solvated|raises", "image_molecules() after an in-place edit raised %s" % e, dict(case=k))
+            del t2_
+        del t_, res_
+        gc.collect()
     for key, (what, rp) in seen.items():
         ctx.violation(key, what, rp)
 
